@@ -134,7 +134,8 @@ func (g Group) ValidateClosable() error {
 // ValidatePausable provides error response if group is not pausable
 func (g Group) ValidatePausable() error {
 	switch g.State {
-	case GroupClosed:
+	case GroupClosed, GroupInsufficientFunds:
+		// a group closed for insufficient funds belongs to a closed deployment
 		return ErrGroupClosed
 	case GroupPaused:
 		return ErrGroupPaused
@@ -146,7 +147,8 @@ func (g Group) ValidatePausable() error {
 // ValidatePausable provides error response if group is not pausable
 func (g Group) ValidateStartable() error {
 	switch g.State {
-	case GroupClosed:
+	case GroupClosed, GroupInsufficientFunds:
+		// a group closed for insufficient funds belongs to a closed deployment
 		return ErrGroupClosed
 	case GroupOpen:
 		return ErrGroupOpen
